@@ -2,7 +2,12 @@
    input table.  Property theorems only; each closed with [exact] and followed
    by Print Assumptions.
 
-   [fixes] selects the code as it is ([no_fixes]) or the proposed repairs.
+   [fixes] has one boolean per repaired defect (C17-F1..F4, F6, F7): the code as
+   it now is = [all_fixes]; [no_fixes] = the code before the fix: commits.
+   PART 1 states the theorems about the code as it now is, PART 2 keeps the
+   refutations of the same statements for the unrepaired code as the record of
+   the repaired defects.
+
    The input table is a value in this functional model, so "the input table is
    left unchanged" holds by construction and is not stated as a theorem; the
    aliasing that matters -- the operation's own attributes, which alias the
@@ -11,6 +16,8 @@ From Coq Require Import List NArith ZArith Bool.
 From HV Require Import Base.Res Base.Str Model.RemodelJson Gen.RemodelParams Model.Remodel
   Proofs.RemodelProofs.
 Import ListNotations.
+
+(* ======================= PART 1: the code as it now is ======================= *)
 
 (* ---- documented meaning of the column/row operations, for ALL tables ---- *)
 
@@ -78,53 +85,37 @@ Theorem C17_result_has_no_nan : forall fx sts t sts' t',
 Proof. exact run_no_nan. Qed.
 Print Assumptions C17_result_has_no_nan.
 
-(* ---- parameters are left unchanged ---- *)
+(* ---- parameters are left unchanged: FULL statement, every operation ---- *)
 
-(* FULL statement: forall st t, fst (do_op fx st t) = st.
-   It holds with the repair of reorder_columns ... *)
-Theorem C17_opstate_constant : forall fx st t,
-  fx_reorder fx = true -> fst (do_op fx st t) = st.
-Proof. exact opstate_constant. Qed.
+Theorem C17_opstate_constant : forall st t, fst (do_op all_fixes st t) = st.
+Proof. exact (fun st t => opstate_constant all_fixes st t eq_refl). Qed.
 Print Assumptions C17_opstate_constant.
 
-(* ... is FALSE of the code as it is (reorder_columns, keep_others) ... *)
-Theorem C17_opstate_constant_refuted : exists st t, fst (do_op no_fixes st t) <> st.
-Proof. exact opstate_constant_refuted. Qed.
-Print Assumptions C17_opstate_constant_refuted.
+(* ---- same result first, last or repeatedly through one dispatcher: FULL
+   statement over ALL operation lists and ALL table sequences ---- *)
 
-(* ... and holds of the code as it is for every other operation *)
-Theorem C17_opstate_constant_partial : forall fx st t,
-  not_keep_others st = true -> fst (do_op fx st t) = st.
-Proof. exact opstate_constant_partial. Qed.
-Print Assumptions C17_opstate_constant_partial.
-
-(* ---- same result first, last or repeatedly through one dispatcher ---- *)
-
-Theorem C17_order_independent : forall fx sts ts,
-  stable fx sts ->
-  run_tables fx sts ts = (sts, map (fun t => snd (run_operations fx sts t)) ts).
-Proof. exact order_independent. Qed.
+Theorem C17_order_independent : forall sts ts,
+  run_tables all_fixes sts ts = (sts, map (fun t => snd (run_operations all_fixes sts t)) ts).
+Proof. exact (fun sts ts => order_independent all_fixes sts ts (or_introl eq_refl)). Qed.
 Print Assumptions C17_order_independent.
-
-Theorem C17_order_independent_refuted :
-  exists sts t1 t2,
-    nth 1 (snd (run_tables no_fixes sts [t1; t2])) (Exn Unmodelled) <> snd (run_operations no_fixes sts t2)
-    /\ is_ok (snd (run_operations no_fixes sts t2)) = true.
-Proof. exact order_independent_refuted. Qed.
-Print Assumptions C17_order_independent_refuted.
 
 (* ---- validation gate ---- *)
 
+(* a list with messages is never executed, not even partially *)
 Theorem C17_invalid_never_executed : forall fx ops ts,
-  validate ops = Ok false -> remodel fx ops ts = Ok Rejected.
+  validate fx ops = Ok false -> remodel fx ops ts = Ok Rejected.
 Proof. exact invalid_never_executed. Qed.
 Print Assumptions C17_invalid_never_executed.
 
-Theorem C17_valid_is_executed : forall fx ops ts sts,
-  validate ops = Ok true -> parse_operations ops = Ok sts ->
-  remodel fx ops ts = Ok (Ran (fst (run_tables fx sts ts)) (snd (run_tables fx sts ts))).
-Proof. exact valid_is_executed. Qed.
-Print Assumptions C17_valid_is_executed.
+(* a list without messages always constructs (no exception from any of the
+   eight constructors) and is run on every table: FULL statement *)
+Theorem C17_valid_always_runs : forall ops ts,
+  validate all_fixes ops = Ok true ->
+  exists sts, parse_operations ops = Ok sts /\
+    remodel all_fixes ops ts
+    = Ok (Ran (fst (run_tables all_fixes sts ts)) (snd (run_tables all_fixes sts ts))).
+Proof. exact (fun ops ts => valid_always_runs all_fixes ops ts eq_refl). Qed.
+Print Assumptions C17_valid_always_runs.
 
 (* for each of the eight operations: parameters accepted by the translated
    PARAMS schema never make the translated __init__ raise (the required lists
@@ -133,20 +124,22 @@ Theorem C17_init_total : Forall init_total op_table.
 Proof. exact init_total_all. Qed.
 Print Assumptions C17_init_total.
 
-(* ... which is FALSE of the accesses SplitRowsOp._split_rows makes to a
-   new_events entry (copy_columns is optional but read with [...]) *)
-Theorem C17_split_event_fetch_refuted :
-  exists sch, event_schema = Some sch /\ check sch ex_event = true /\
-              split_rows_event_fetch ex_event = Exn KeyError.
-Proof. exact split_event_fetch_refuted. Qed.
-Print Assumptions C17_split_event_fetch_refuted.
+(* the same for the accesses SplitRowsOp._split_rows makes to a new_events
+   entry at do_op time; the guard is discharged for the current tree in
+   Props/C17Now.v (it is false for the unrepaired tree) *)
+Theorem C17_split_event_fetch_total :
+  event_fetch_safe = true ->
+  exists sch, event_schema = Some sch /\
+    forall ev, check sch ev = true -> exists a, split_rows_event_fetch ev = Ok a.
+Proof. exact split_event_fetch_total. Qed.
+Print Assumptions C17_split_event_fetch_total.
 
-(* ---- a valid list runs to completion ---- *)
+(* ---- a valid list runs to completion: FULL statement, all eight operations ---- *)
 
-(* FULL statement: forall st t, applicable' st t -> exists t', snd (do_op fx st t) = Ok t'
-   for all eight operations.  Proved with the repairs for every operation
-   except split_rows and merge_consecutive/set_durations ([applicable] is false
-   for these two: their totality is checked by the correspondence run only). *)
+(* [applicable st t] = the table has the columns the operation names (or
+   ignore_missing is set) with values of the expected kind: numbers or n/a in
+   onset/duration for merge_consecutive/set_durations; numbers, numeric-looking
+   text or n/a in onset for split_rows. *)
 Theorem C17_valid_runs : forall st t,
   applicable st t = true -> exists t', snd (do_op all_fixes st t) = Ok t'.
 Proof. exact do_op_total. Qed.
@@ -157,34 +150,80 @@ Theorem C17_valid_runs_list : forall sts t,
 Proof. exact run_total. Qed.
 Print Assumptions C17_valid_runs_list.
 
-(* FALSE of the code as it is: the four optional parameters and the group numbering *)
+(* non-vacuity: a three-operation list that is applicable to a table with n/a
+   cells, run twice through one dispatcher; and the former crash witnesses *)
+Example C17_nonvacuous :
+  forallb (input_data_ok all_fixes) ex_ops = true /\
+  run_tables no_fixes ex_ops [ex_T1; ex_T1]
+  = (ex_ops, [Ok {| cols := [s1 99; s1 122]; rows := [[CStr [122%N]; CStr [50%N]]] |};
+              Ok {| cols := [s1 99; s1 122]; rows := [[CStr [122%N]; CStr [50%N]]] |}]).
+Proof. exact ex_ops_run. Qed.
+
+Example C17_nonvacuous_applicable : applicable_run ex_ops ex_T1 = true.
+Proof. exact ex_ops_applicable. Qed.
+
+Example C17_former_witnesses_applicable :
+  applicable ex_factor_no_values ex_T1 = true /\ applicable ex_factor_no_names ex_T1 = true /\
+  applicable ex_merge_no_match ex_T1 = true /\ applicable ex_split_no_copy ex_T3 = true /\
+  applicable ex_merge_gap ex_T3 = true.
+Proof. exact former_witnesses_applicable. Qed.
+
+(* ============ PART 2: record of the repaired defects (code before the fixes) ============ *)
+
+(* C17-F1: reorder_columns/keep_others extended its own column_order *)
+Theorem C17_opstate_constant_refuted : exists st t, fst (do_op no_fixes st t) <> st.
+Proof. exact opstate_constant_refuted. Qed.
+Print Assumptions C17_opstate_constant_refuted.
+
+(* what held of the unrepaired code: every other operation was constant *)
+Theorem C17_opstate_constant_partial : forall fx st t,
+  not_keep_others st = true -> fst (do_op fx st t) = st.
+Proof. exact opstate_constant_partial. Qed.
+Print Assumptions C17_opstate_constant_partial.
+
+Theorem C17_order_independent_refuted :
+  exists sts t1 t2,
+    nth 1 (snd (run_tables no_fixes sts [t1; t2])) (Exn Unmodelled) <> snd (run_operations no_fixes sts t2)
+    /\ is_ok (snd (run_operations no_fixes sts t2)) = true.
+Proof. exact order_independent_refuted. Qed.
+Print Assumptions C17_order_independent_refuted.
+
+(* C17-F7: a validated remap_columns list made the constructor raise *)
+Theorem C17_valid_constructs_refuted :
+  validate no_fixes ex_remap_overlap = Ok true /\
+  parse_operations ex_remap_overlap = Exn ValueError /\
+  validate all_fixes ex_remap_overlap = Ok false.
+Proof. exact valid_constructs_refuted. Qed.
+Print Assumptions C17_valid_constructs_refuted.
+
+(* C17-F2, F3, F4, F6: the optional parameters and the group numbering *)
 Theorem C17_valid_runs_refuted_factor_values :
-  input_data_ok ex_factor_no_values = true /\ has_col ex_T1 (s1 97) = true /\
+  input_data_ok no_fixes ex_factor_no_values = true /\ has_col ex_T1 (s1 97) = true /\
   snd (do_op no_fixes ex_factor_no_values ex_T1) = Exn TypeError.
 Proof. exact valid_runs_refuted_factor_values. Qed.
 Print Assumptions C17_valid_runs_refuted_factor_values.
 
 Theorem C17_valid_runs_refuted_factor_names :
-  input_data_ok ex_factor_no_names = true /\ has_col ex_T1 (s1 97) = true /\
+  input_data_ok no_fixes ex_factor_no_names = true /\ has_col ex_T1 (s1 97) = true /\
   snd (do_op no_fixes ex_factor_no_names ex_T1) = Exn TypeError.
 Proof. exact valid_runs_refuted_factor_names. Qed.
 Print Assumptions C17_valid_runs_refuted_factor_names.
 
 Theorem C17_valid_runs_refuted_merge_match :
-  input_data_ok ex_merge_no_match = true /\ has_col ex_T1 (s1 98) = true /\
+  input_data_ok no_fixes ex_merge_no_match = true /\ has_col ex_T1 (s1 98) = true /\
   snd (do_op no_fixes ex_merge_no_match ex_T1) = Exn TypeError.
 Proof. exact valid_runs_refuted_merge_match. Qed.
 Print Assumptions C17_valid_runs_refuted_merge_match.
 
 Theorem C17_valid_runs_refuted_split_copy :
-  input_data_ok ex_split_no_copy = true /\ wfb ex_T3 = true /\
+  input_data_ok no_fixes ex_split_no_copy = true /\ wfb ex_T3 = true /\
   snd (do_op no_fixes ex_split_no_copy ex_T3) = Exn KeyError /\
   is_ok (snd (do_op all_fixes ex_split_no_copy ex_T3)) = true.
 Proof. exact valid_runs_refuted_split_copy. Qed.
 Print Assumptions C17_valid_runs_refuted_split_copy.
 
 Theorem C17_valid_runs_refuted_merge_gap :
-  input_data_ok ex_merge_gap = true /\ wfb ex_T3 = true /\
+  input_data_ok no_fixes ex_merge_gap = true /\ wfb ex_T3 = true /\
   snd (do_op no_fixes ex_merge_gap ex_T3) = Exn IndexError /\
   snd (do_op all_fixes ex_merge_gap ex_T3)
   = Ok {| cols := cols ex_T3;
@@ -193,21 +232,10 @@ Theorem C17_valid_runs_refuted_merge_gap :
 Proof. exact valid_runs_refuted_merge_gap. Qed.
 Print Assumptions C17_valid_runs_refuted_merge_gap.
 
-(* the code as it is, when every optional parameter is present *)
+(* what held of the unrepaired code: with every optional parameter present
+   (outside split_rows and set_durations) it ran to completion *)
 Theorem C17_valid_runs_partial : forall st t,
-  optionals_present st = true -> applicable st t = true ->
+  optionals_present st = true -> applicable_core st t = true ->
   exists t', snd (do_op no_fixes st t) = Ok t'.
 Proof. exact do_op_total_partial. Qed.
 Print Assumptions C17_valid_runs_partial.
-
-(* non-vacuity: a three-operation list that is applicable to a table with n/a
-   cells, run twice through one dispatcher *)
-Example C17_nonvacuous :
-  forallb input_data_ok ex_ops = true /\
-  run_tables no_fixes ex_ops [ex_T1; ex_T1]
-  = (ex_ops, [Ok {| cols := [s1 99; s1 122]; rows := [[CStr [122%N]; CStr [50%N]]] |};
-              Ok {| cols := [s1 99; s1 122]; rows := [[CStr [122%N]; CStr [50%N]]] |}]).
-Proof. exact ex_ops_run. Qed.
-
-Example C17_nonvacuous_applicable : applicable_run ex_ops ex_T1 = true.
-Proof. exact ex_ops_applicable. Qed.
